@@ -57,6 +57,7 @@ static VP_TLS int in_program;
  * the Dispatch steps that deliver a batch become returns of the wrapped epoll_wait, the top-level steps in between are executed
  * from inside the wrapped epoll_wait (outside any callback, exactly like between two dispatch calls), and the Dispatch step that
  * stops the loop is what m_ctx_loop() does by itself before it returns the quit code. */
+static unsigned long long bt_ns = 7000000ULL;
 static int loop_mode;
 static VP_TLS int in_loop;
 static VP_TLS int prog_loopable;
@@ -842,7 +843,7 @@ static void exec_action(gw_edge *e) {
         r = m_mod_set_tokenbucket(H[m], rate == 0 ? 0 : rate == 1 ? 65536 : 1000, (uint64_t)burst);
         if (r == -EAGAIN) { keep = 2; }
     }
-    else if (!strcmp(a, "SetBatchTimeout")) r = m_mod_set_batch_timeout(H[m], e->args[1] ? 7000000ULL : 0);
+    else if (!strcmp(a, "SetBatchTimeout")) r = m_mod_set_batch_timeout(H[m], e->args[1] ? bt_ns : 0);
     else if (!strcmp(a, "CtxSetTick")) r = m_ctx_set_tick(e->args[0] ? TMR_NS[e->args[0]] : 0);
     else if (!strcmp(a, "TbTick") || !strcmp(a, "BtFire")) {
         void *want = a[0] == 'T' ? (void *)&H[m]->tb : (void *)&H[m]->batch;
@@ -1189,6 +1190,7 @@ int main(int argc, char **argv) {
     loop_mode = getenv("VP_LOOPMODE") && atoi(getenv("VP_LOOPMODE"));
     task_mode = getenv("VP_TASKS") && atoi(getenv("VP_TASKS"));
     pool_size = getenv("VP_POOLSZ") ? atoi(getenv("VP_POOLSZ")) : 0;
+    if (getenv("VP_BT_NS")) bt_ns = strtoull(getenv("VP_BT_NS"), NULL, 10);   /* batch timeout period (tbbte: equal to the refill period of rate id 1) */
     sem_init(&task_notified, 0, 0);
     for (int i = 0; i < NM; i++) for (int k = 0; k < NTK; k++) { snprintf(TK[i][k].ud, sizeof TK[i][k].ud, "%d", k); TK[i][k].m = i; TK[i][k].key = k; sem_init(&TK[i][k].gate, 0, 0); }
     { sigset_t ss; sigemptyset(&ss); for (int k = 1; k <= NKEY; k++) sigaddset(&ss, SIGS[k]); sigprocmask(SIG_BLOCK, &ss, NULL); }
